@@ -113,8 +113,17 @@ def parent(args):
         procs.append((i, out, log, subprocess.Popen(cmd, stdout=log, stderr=subprocess.STDOUT,
                                                     cwd=HERE)))
     results, harness_errors = [], []
+    # a wall-clock cap on the whole check: hitting it is a harness problem (exit 2), never a verdict
+    deadline = time.time() + float(os.environ.get("VERIF_WALL_CAP", 1500 if args.tier == "quick" else 6 * 3600))
     for i, out, log, p in procs:
-        rc = p.wait()
+        try:
+            rc = p.wait(timeout=max(1.0, deadline - time.time()))
+        except subprocess.TimeoutExpired:
+            for _, _, _, q in procs:
+                if q.poll() is None:
+                    q.kill()
+            rc = p.wait()
+            harness_errors.append(f"worker {i}: wall-clock cap reached (inconclusive, no verdict)")
         log.close()
         if rc != 0 or not os.path.exists(out):
             with open(log.name) as f:
